@@ -405,6 +405,16 @@ protected:
  * This class is defined in \ref MPMCqueues.hpp
  *
  */
+#if defined FIX8_VERIF
+// verification hook: a harness may install a function that is called between the atomic steps of uMPMC_Ptr_Queue::push/pop
+// (tag = which step, value = the ticket or sequence value just read or written); a null pointer - the default - does nothing
+typedef void (*verif_hook_t)(int, unsigned long);
+inline verif_hook_t& verif_hook() { static verif_hook_t hook = 0; return hook; }
+#define FIX8_VERIF_POINT(tag, value) do { if (::ff::verif_hook()) ::ff::verif_hook()((tag), (unsigned long)(value)); } while (0)
+#else
+#define FIX8_VERIF_POINT(tag, value)
+#endif
+
 class uMPMC_Ptr_Queue {
 protected:
     enum {DEFAULT_NUM_QUEUES=4, DEFAULT_uSPSC_SIZE=2048};
@@ -468,19 +478,28 @@ public:
         do {
             pw    = atomic_long_read(&preadP);
             idx   = pw & mask;
+            FIX8_VERIF_POINT(1, pw);
             seq   = atomic_long_read(&seqP[idx]);
+            FIX8_VERIF_POINT(2, seq);
             if (pw == seq) {
                 if (abstraction_cas((volatile atom_t*)&preadP, (atom_t)(pw+1), (atom_t)pw)==(atom_t)pw)
                     break;
+                FIX8_VERIF_POINT(4, pw);
 
                 // exponential delay with max value
                 for(volatile unsigned i=0;i<bk;++i) ;
                 bk <<= 1;
                 bk &= BACKOFF_MAX;
             }
+#if defined FIX8_VERIF
+            else FIX8_VERIF_POINT(5, pw);
+#endif
         } while(1);
+        FIX8_VERIF_POINT(3, pw);
         ((uSWSR_Ptr_Buffer*)(buf[idx]))->push(data); // cannot fail
+        FIX8_VERIF_POINT(6, pw);
         atomic_long_set(&seqP[idx],(pw+mask+1));
+        FIX8_VERIF_POINT(7, pw);
         return true;
     }
 
@@ -496,20 +515,33 @@ public:
         do {
             pr     = atomic_long_read(&preadC);
             idx    = pr & mask;
+            FIX8_VERIF_POINT(11, pr);
             seq    = atomic_long_read(&seqC[idx]);
+            FIX8_VERIF_POINT(12, seq);
             if (pr == (unsigned long)seq) {
+#if defined FIX8_VERIF
+                { const unsigned long sp_(atomic_long_read(&seqP[idx])); FIX8_VERIF_POINT(13, sp_); if (sp_ <= (unsigned long)seq) { FIX8_VERIF_POINT(14, pr); return false; } }
+#else
                 if (atomic_long_read(&seqP[idx]) <= (unsigned long)seq) return false; // queue
+#endif
                 if (abstraction_cas((volatile atom_t*)&preadC, (atom_t)(pr+1), (atom_t)pr)==(atom_t)pr)
                     break;
+                FIX8_VERIF_POINT(16, pr);
 
                 // exponential delay with max value
                 for(volatile unsigned i=0;i<bk;++i) ;
                 bk <<= 1;
                 bk &= BACKOFF_MAX;
             }
+#if defined FIX8_VERIF
+            else FIX8_VERIF_POINT(17, pr);
+#endif
         } while(1);
+        FIX8_VERIF_POINT(15, pr);
         ((uSWSR_Ptr_Buffer*)(buf[idx]))->pop(data);
+        FIX8_VERIF_POINT(18, pr);
         atomic_long_set(&seqC[idx],(pr+mask+1));
+        FIX8_VERIF_POINT(19, pr);
         return true;
     }
 
